@@ -48,6 +48,18 @@ def evaluate(repo, mod, node, local_names=None, _depth=0):
             if found and found[0] == "const":
                 return evaluate(repo, found[1], found[2], None, _depth + 1)
         return UNKNOWN
+    if isinstance(node, ast.Attribute) and node.attr == "size":
+        # struct.Struct(fmt).size / NAME.size with NAME = struct.Struct(fmt)
+        inner = node.value
+        if isinstance(inner, ast.Name) and inner.id in mod.constants:
+            inner = mod.constants[inner.id]
+        if isinstance(inner, ast.Call) and repo.dotted(mod, inner.func) == "struct.Struct" and len(inner.args) == 1:
+            v = ev(inner.args[0])
+            if isinstance(v, (str, bytes)):
+                try:
+                    return _struct.calcsize(v)
+                except _struct.error:
+                    return UNKNOWN
     if isinstance(node, ast.Attribute):
         # Enum.MEMBER.value / Enum.MEMBER
         if node.attr == "value" and isinstance(node.value, ast.Attribute):
@@ -100,6 +112,35 @@ def evaluate(repo, mod, node, local_names=None, _depth=0):
             v = ev(node.args[0])
             if isinstance(v, (bytes, str, tuple, list, dict)):
                 return len(v)
+        if fn in ("tuple", "list") and len(node.args) == 1 and isinstance(node.args[0], (ast.GeneratorExp, ast.ListComp)) \
+                and len(node.args[0].generators) == 1 and not node.args[0].generators[0].ifs \
+                and isinstance(node.args[0].generators[0].target, ast.Name):
+            # tuple(f(i) for i in range(n)) / over a constant sequence, with a constant-foldable element
+            g = node.args[0].generators[0]
+            seq = ev(g.iter)
+            if isinstance(g.iter, ast.Call) and repo.dotted(mod, g.iter.func) == "range":
+                ra = [ev(a) for a in g.iter.args]
+                seq = list(range(*ra)) if all(isinstance(a, int) and not isinstance(a, bool) for a in ra) and 1 <= len(ra) <= 3 else UNKNOWN
+            if isinstance(seq, (tuple, list)) and len(seq) <= 64:
+                out = []
+                for item in seq:
+                    ln = dict(local_names or {})
+                    ln[g.target.id] = item
+                    v = evaluate(repo, mod, node.args[0].elt, ln, _depth + 1)
+                    if v is UNKNOWN:
+                        return UNKNOWN
+                    out.append(v)
+                return tuple(out) if fn == "tuple" else out
+        if fn in ("tuple", "list") and len(node.args) == 1 and not isinstance(node.args[0], (ast.GeneratorExp, ast.ListComp)):
+            v = ev(node.args[0])
+            if isinstance(v, (tuple, list)):
+                return tuple(v) if fn == "tuple" else list(v)
+        if fn == "range" and 1 <= len(node.args) <= 3:
+            ra = [ev(a) for a in node.args]
+            if all(isinstance(a, int) and not isinstance(a, bool) for a in ra):
+                r = range(*ra)
+                if len(r) <= 64:
+                    return tuple(r)
         if fn == "struct.calcsize" and len(node.args) == 1:
             v = ev(node.args[0])
             if isinstance(v, str):
